@@ -171,6 +171,9 @@ T1C_PRELUDE = [
     'Fixpoint src_zindex (x : Z) (l : list Z) : Z := match l with [] => 0 | y :: r => if x =? y then 0 else 1 + src_zindex x r end.',
     'Definition src_znth (l : list Z) (i : Z) : Z := nth (Z.to_nat i) l 0.',
     'Fixpoint src_sindex (x : string) (l : list string) : Z := match l with [] => 0 | y :: r => if String.eqb x y then 0 else 1 + src_sindex x r end.',
+    # Python `a < b` on str: code-point lexicographic order, a proper prefix is smaller
+    'Fixpoint src_str_ltb (a b : string) : bool := match a, b with | _, EmptyString => false | EmptyString, String _ _ => true '
+    '| String x a1, String y b1 => if (N_of_ascii x <? N_of_ascii y)%N then true else if (N_of_ascii y <? N_of_ascii x)%N then false else src_str_ltb a1 b1 end.',
 ]
 
 
@@ -287,6 +290,8 @@ def _texpr(n, env):
             need(ta in eqs, 'kernel: equality on %s' % ta)
             r = eqs[ta] % (a, b)
             return (r if isinstance(op, ast.Eq) else '(negb %s)' % r, 'bool')
+        if ta == 'string' and isinstance(op, (ast.Lt, ast.Gt)):
+            return ('(src_str_ltb %s %s)' % ((a, b) if isinstance(op, ast.Lt) else (b, a)), 'bool')
         ops = {ast.Lt: '(%s <? %s)', ast.LtE: '(%s <=? %s)', ast.Gt: '(%s >? %s)', ast.GtE: '(%s >=? %s)'}
         need(type(op) in ops and ta == 'Z', 'kernel: comparison %s on %s' % (type(op).__name__, ta))
         return (ops[type(op)] % (a, b), 'bool')
@@ -337,12 +342,19 @@ def _texpr(n, env):
             (a, ta), (b, tb) = _texpr(n.args[0], env), _texpr(n.args[1], env)
             need(ta == tb == 'Z', 'kernel: pow on %s, %s' % (ta, tb))
             return ('(Z.pow %s %s)' % (a, b), 'Z')      # for a non-negative exponent (Python yields a float otherwise)
+        if isinstance(f, ast.Attribute) and f.attr == 'group' and len(n.args) == 1 and isinstance(n.args[0], ast.Constant) and n.args[0].value == 1 and not n.keywords:
+            x, tx = _texpr(f.value, env)
+            need(tx == 'option string', 'kernel: group(1) of a %s' % tx)
+            # a match input carries its group 1; the source reads it only behind `is not None` (None would raise)
+            return ('(match %s with Some s_ => s_ | None => EmptyString end)' % x, 'string')
         if isinstance(f, ast.Name) and f.id == 'cast' and len(n.args) == 2 and not n.keywords:
             return _texpr(n.args[1], env)       # typing.cast(T, e) is e
         if isinstance(f, ast.Name) and f.id == 'bool' and len(n.args) == 1 and not n.keywords:
             x, tx = _texpr(n.args[0], env)
             if tx == 'string':
                 return ('(negb (String.eqb %s ""))' % x, 'bool')    # bool(s): s is not empty
+            if tx == 'option string':
+                return ('(match %s with Some _ => true | None => false end)' % x, 'bool')    # bool(m) of a match object / None
             need(tx == 'bool', 'kernel: bool() of a %s' % tx)
             return (x, 'bool')
         if isinstance(f, ast.Name) and f.id == 'len' and len(n.args) == 1:
@@ -1444,6 +1456,41 @@ def main(out_path):
         w(kernel('src_between_versions', [('vfrom', 'string'), ('vtill', 'string'), ('cmp_from', 'Z'), ('cmp_till', 'Z')], bv.body,
                  inputs={'self.compare_version(vfrom)': ('cmp_from', 'Z'), 'self.compare_version(vtill)': ('cmp_till', 'Z')}))
     soft('Software.between_versions', ['C14'], ex_between)
+
+    def ex_patch_cmp():
+        # the patch-level comparison of Software.compare_version: everything after the `version_cmp != 0` return, with the four regular
+        # expression matches (all applied to the patch texts as they are on entry to the block) as inputs
+        t_sw = ast.parse(src('software.py'))
+        cv = func_node(t_sw, 'Software.compare_version')
+        k = [i for i, st in enumerate(cv.body) if ast.unparse(st) == "spatch = self.patch or ''"]
+        need(len(k) == 1 and k[0] > 0 and ast.unparse(cv.body[k[0] - 1]) == 'if version_cmp != 0:\n    return version_cmp', 'compare_version: the patch block follows the version comparison')
+        block = cv.body[k[0] + 1:]
+        calls = [n for st in block for n in ast.walk(st) if isinstance(n, ast.Call) and ast.unparse(n.func) == 're.match']
+        want = {("^test\\d.*$", 'opatch'): ('o_test', 'bool'), ("^test\\d.*$", 'spatch'): ('s_test', 'bool'),
+                ("^p(\\d).*", 'opatch'): ('o_pdigit', 'option string'), ("^p(\\d).*", 'spatch'): ('s_pdigit', 'option string')}
+        inputs = {'self.product': ('product', 'string'), 'Product.DropbearSSH': ('product_DropbearSSH', 'string'), 'Product.OpenSSH': ('product_OpenSSH', 'string')}
+        seen = set()
+        for c in calls:
+            need(len(c.args) == 2 and not c.keywords and isinstance(c.args[0], ast.Constant) and isinstance(c.args[1], ast.Name), 'compare_version: shape of a re.match call')
+            kk = (c.args[0].value, c.args[1].id)
+            need(kk in want, 'compare_version: unexpected pattern %r on %s' % kk)
+            inputs[ast.unparse(c)] = want[kk]
+            seen.add(kk)
+        need(seen == set(want) and len(calls) == 4, 'compare_version: the four matches of the patch block')
+        # each match must see the patch text of the block's entry: no assignment to its argument precedes it in its own branch
+        for br, nm in ((block[0].body, ('opatch', 'spatch')), (block[0].orelse[0].body if block[0].orelse and isinstance(block[0].orelse[0], ast.If) else None, ('opatch', 'spatch'))):
+            need(br is not None, 'compare_version: Dropbear / OpenSSH branches')
+            assigned = set()
+            for st in br:
+                for n in ast.walk(st):
+                    if isinstance(n, ast.Call) and ast.unparse(n.func) == 're.match':
+                        need(n.args[1].id not in assigned or (n.args[1].id == 'spatch' and 'spatch' not in assigned), 'compare_version: a match applied to a rewritten patch text')
+                for n in ast.walk(st):
+                    if isinstance(n, ast.Name) and isinstance(n.ctx, ast.Store):
+                        assigned.add(n.id)
+        w(kernel('src_patch_cmp', [('product', 'string'), ('spatch', 'string'), ('opatch', 'string'), ('o_test', 'bool'), ('s_test', 'bool'), ('o_pdigit', 'option string'), ('s_pdigit', 'option string')],
+                 block, inputs=inputs))
+    soft('Software.compare_version (patch block)', ['C14'], ex_patch_cmp)
 
     def ex_since_text():
         t_alg = ast.parse(src('algorithm.py'))
